@@ -6,7 +6,7 @@ sys.path.insert(0, '/verif/rules'); sys.path.insert(0, '/verif/mutants')
 import core, mutate
 from facts import build_facts, load_facts
 from concurrent.futures import ProcessPoolExecutor
-PIDS = ['C%02d' % i for i in range(2, 17)]
+PIDS = ['C%02d' % i for i in range(1, 17)]
 VF = '/var/tmp/vf'
 
 def build_one(a):
